@@ -259,6 +259,7 @@ def run(repo: Repo, rep: Report, tier: str) -> None:
     rep.floor("released/aborted notification sites", n_term, 8)
 
     check_delivery_snapshot(repo, rep)
+    check_stop_only_idle(repo, rep)
 
 
 IN_PLACE_REMOVALS = ("remove", "pop", "clear", "insert", "sort", "reverse")
@@ -322,3 +323,40 @@ def check_delivery_snapshot(repo: Repo, rep: Report) -> None:
         for fn, x, what in bad:
             rep.fail("delivery-snapshot", f"events.{fn.name}", enclosing(x, (ast.stmt,)) or x, f"{what} shrinks / reorders the stored handler list in place while events.trigger() may be iterating that very object (get_handlers returns it uncopied): a handler that unbinds itself or an earlier handler during delivery makes the loop skip the next handler, which never sees this notification", mod=ev, node=x)
     rep.floor("handler-list mutators inspected", n, 2)
+
+
+def check_stop_only_idle(repo: Repo, rep: Report, rule: str = "close-once-last") -> int:
+    """EVT_CONN_CLOSE (and the socket close) happen in the actions that take the provider to Sta1. The
+    provider loop may therefore be told to stop only once the machine is idle: every write of
+    `_kill_thread = True` in dul.py is (a) kill_dul(), which only the Sta1-returning actions call (C04 /
+    close-once-last), (b) under a test that the current state is 'Sta1' and nothing else, or (c) the
+    hard-shutdown handler of the reactor's catch-all (recorded under C05's survival rule)."""
+    dul = repo.mod("dul")
+    n = 0
+    for st in ast.walk(dul.tree):
+        if not (isinstance(st, ast.Assign) and norm(st.targets[0]) == "self._kill_thread" and norm(st.value) == "True"):
+            continue
+        n += 1
+        q = qualname(st)
+        fq = f"dul.{q}"
+        if q.endswith(".kill_dul"):
+            rep.ok(rule, f"{fq} :: _kill_thread = True", "kill_dul(): called by the actions that return Sta1")
+            continue
+        if enclosing(st, (ast.ExceptHandler,)) is not None and q.endswith(".run_reactor"):
+            rep.ok(rule, f"{fq} :: _kill_thread = True", "hard shutdown in the reactor's catch-all")
+            continue
+        g = enclosing(st, (ast.If,))
+        states = None
+        while g is not None and states is None:
+            t = g.test
+            if isinstance(t, ast.Compare) and len(t.ops) == 1 and norm(t.left).endswith("current_state") and st in list(ast.walk(ast.Module(body=g.body, type_ignores=[]))):
+                c = t.comparators[0]
+                if isinstance(t.ops[0], ast.Eq) and isinstance(c, ast.Constant):
+                    states = {c.value}
+                elif isinstance(t.ops[0], ast.In) and isinstance(c, (ast.List, ast.Tuple, ast.Set)) and all(isinstance(e, ast.Constant) for e in c.elts):
+                    states = {e.value for e in c.elts}
+            g = enclosing(g, (ast.If,))
+        ok = states is not None and states <= {"Sta1"}
+        rep.check(ok, rule, fq, st, f"the provider loop is stopped while the state machine may be in {sorted(states) if states else 'any state'}: only in Sta1 have the closing actions run - stopping earlier (e.g. in Sta13, waiting for the peer to close) ends the thread without EVT_CONN_CLOSE and without closing the socket", mod=dul, node=st)
+    rep.floor("_kill_thread = True sites", n, 3)
+    return n
